@@ -31,8 +31,10 @@ def run(ctx):
                "kernel), Constant / Identity kernels and the truth value of a boolean scalar are hypotheses (coq/Opt/FoldTheorems.v: oracles), "
                "measured by running original and optimized models on onnxruntime and onnx.reference")
     ctx.assume("op-specific partial evaluators (Cast/CastLike/Reshape/Expand/Abs -> Identity, Shape/Size/Gather -> Constant, Concat, Dropout, "
-               "sequence ops) enter the pass theorem through the hypothesis pe_ok (locally sound replacement); their soundness needs truthful "
-               "type/shape annotations and is covered by the correspondence + differential oracle only")
+               "sequence ops) enter the pass theorems through the hypothesis pe_ok (locally sound replacement) - the only hypothesis about the "
+               "pass left in C03_fold_graph_sound_partial; their soundness needs truthful type/shape annotations and is covered by the "
+               "correspondence + differential oracle only; the theorems hold for models passing the freshness side conditions of the strict "
+               "model (evaluated on every compared model; the class that fails them - an If branch returning its own initializer - is counted)")
     ctx.assume("Opt/Fold.v models the pass with onnx_shape_inference=False (node-level ONNX shape inference is not modelled); names stand for "
                "ir.Value objects, faithful on models whose value names are unique across graphs/functions (generated so; others are skipped "
                "by the correspondence and still covered by the differential oracle)")
@@ -59,7 +61,8 @@ def run(ctx):
     discards = collections.Counter()
     feats = collections.Counter()
     n_dag = 90 if quick else 700
-    for c in K.dag_stream(rng, n_dag, overridable_every=9, start=1000):
+    import itertools
+    for c in itertools.chain(K.corpus_stream(rng, "C03"), K.dag_stream(rng, n_dag, overridable_every=9, start=1000)):
         if not isinstance(c, G.Case):
             discards["generator-error: " + c[1][:60]] += 1
             continue
